@@ -234,21 +234,176 @@ theorem copy_pad (x : Bytes) (N : Nat) (h : x.size ≤ N) :
   · apply Array.ext'
     simp
 
+def padEnv (n : Int) (strs msg : Bytes) (idx max : UInt64) (nc : Bool) (cap : Int) (sfx : Bytes) : Env :=
+  [("pj.lim", .int n), ("Strings.B", .bytes strs), ("Message", .bytes msg), ("idx", .u64 idx), ("maxStringSize", .u64 max),
+   ("needCopy", .bool nc), ("cap(strs)", .int cap), ("size", .u64 0), ("buf", .bytes sfx)]
+
+theorem PSFrame_padEnv (n : Nat) (strs msg : Bytes) (idx max : UInt64) (nc : Bool) (cap : Int) (pb : Bytes) (extra : Env) :
+    PSFrame (padEnv n strs msg idx max nc cap pb ++ extra) n strs msg pb idx max nc cap := by
+  constructor <;> simp [padEnv]
+
+theorem pad_exec (n : Nat) (strs msg : Bytes) (idx max : UInt64) (nc : Bool) (cap : Int) (sfx : Bytes) (tape : Array UInt64) (fuel : Nat) :
+    ∃ k e1, exec goFuns fuel (psHead.drop 2) ⟨padEnv n strs msg idx max nc cap sfx, tape⟩ = .normal ⟨e1, tape⟩ ∧
+      PSFrame e1 n strs msg (sfx ++ Array.replicate k 0) idx max nc cap := by
+  by_cases hc : (sfx.size : Int) - toInt64 max < 64
+  · by_cases hbig : (448 : Int) < sfx.size
+    · refine ⟨64, padEnv n strs msg idx max nc cap (sfx ++ Array.replicate 64 0) ++ [("paddedBuf", .bytes (sfx ++ Array.replicate 64 0))], ?_, PSFrame_padEnv ..⟩
+      have h0 : (0 : Int) ≤ ↑sfx.size + 64 := by omega
+      have h1 : ((sfx.size : Int) + 64).toNat = sfx.size + 64 := by omega
+      have hcp := copy_pad sfx (sfx.size + 64) (by omega)
+      rw [Nat.add_sub_cancel_left] at hcp
+      simp [psHead, goparseString, padEnv]
+      simp only [hc, hbig, decide_true, h0, h1, if_true]
+      simp [hcp]
+    · refine ⟨512 - sfx.size, padEnv n strs msg idx max nc cap (sfx ++ Array.replicate (512 - sfx.size) 0) ++ [("paddedBuf", .bytes (sfx ++ Array.replicate (512 - sfx.size) 0))], ?_, PSFrame_padEnv ..⟩
+      have hm : min 512 sfx.size = sfx.size := by omega
+      simp [psHead, goparseString, padEnv]
+      simp only [hc, hbig, decide_true, decide_false, hm]
+      have h0 : (0 : Int) ≤ ↑sfx.size + ↑(512 - sfx.size) := by omega
+      have h1 : ((sfx.size : Int) + ↑(512 - sfx.size)).toNat = 512 := by omega
+      simp only [h0, h1, hm, if_true, Nat.min_self]
+      simp
+  · refine ⟨0, padEnv n strs msg idx max nc cap sfx, ?_, ?_⟩
+    · simp [psHead, goparseString, padEnv]
+      simp only [hc, decide_false]
+    · have := PSFrame_padEnv n strs msg idx max nc cap sfx []
+      simpa using this
+
 /-- `buf := pj.Message[idx:]` and the padding: whatever branch is taken, `buf` is the suffix followed by zero bytes -/
 theorem ps_head (m : M) (buf : Bytes) (idx max : UInt64) (nc : Bool) (cap : Int) (fuel : Nat)
     (hidx : idx.toNat ≤ buf.size) (h63 : idx.toNat < 2^63) :
     ∃ n e1, exec goFuns fuel psHead ⟨psEnv m buf idx max nc cap, m.tape⟩ = .normal ⟨e1, m.tape⟩ ∧
       PSFrame e1 m.tape.size m.strings buf (buf.extract idx.toNat buf.size ++ Array.replicate n 0) idx max nc cap := by
   have hlo : (idx.toNat : Int) ≤ buf.size := by omega
-  by_cases hc : ((buf.size - idx.toNat : Nat) : Int) - toInt64 max < 64
-  · by_cases hbig : buf.size - idx.toNat > 448
-    · refine ⟨64, _, ?_, ?_⟩
-      · simp [psHead, goparseString, psEnv, stEnv, toInt64_small _ h63, hlo, hc]
-        trace_state
-        sorry
-      · sorry
-    · sorry
-  · sorry
+  have h2 : exec goFuns fuel (psHead.take 2) ⟨psEnv m buf idx max nc cap, m.tape⟩ =
+      .normal ⟨padEnv m.tape.size m.strings buf idx max nc cap (buf.extract idx.toNat buf.size), m.tape⟩ := by
+    simp only [psHead, goparseString, psEnv, stEnv, padEnv, List.take, exec, exec1, evalE, Env.get, Env.set, convert,
+      List.cons_append, List.nil_append]
+    simp [toInt64_small _ h63, hlo]
+  obtain ⟨k, e1, he, hf⟩ := pad_exec m.tape.size m.strings buf idx max nc cap (buf.extract idx.toNat buf.size) m.tape fuel
+  refine ⟨k, e1, ?_, hf⟩
+  have hsplit : psHead = psHead.take 2 ++ psHead.drop 2 := rfl
+  rw [hsplit, exec_append, h2]
+  exact he
 
+/-- `parseStringSimdValidateOnly` and the test of its result -/
+theorem ps_validate (e : Env) (n : Nat) (strs msg pb : Bytes) (idx max : UInt64) (nc : Bool) (cap : Int)
+    (tape : Array UInt64) (fuel : Nat) (F : PSFrame e n strs msg pb idx max nc cap) :
+    exec goFuns fuel (psTail.take 2) ⟨e, tape⟩ =
+      match decodeString pb 1 max.toNat with
+      | none => .ret ⟨((e.set "#ok" (.bool false)).set "size" (.u64 0)).set "needCopy" (.bool nc), tape⟩ [.bool false]
+      | some (dec, close) =>
+        .normal ⟨((e.set "#ok" (.bool true)).set "size" (.u64 (UInt64.ofNat dec.size))).set "needCopy"
+          (.bool (nc || (close - 1 != dec.size))), tape⟩ := by
+  obtain ⟨_, _, _, hb, _, hm, hn, _⟩ := F
+  simp only [psTail, goparseString, List.take, List.drop]
+  cases hD : decodeString pb 1 max.toNat with
+  | none => simp [extCall, assignTargets, hb, hm, hn, hD, Env.get_set, -Env.set]
+  | some r =>
+    obtain ⟨dec, close⟩ := r
+    simp [extCall, assignTargets, hb, hm, hn, hD, Env.get_set, -Env.set]
+
+def copyBr : List Stmt :=
+  match psTail with
+  | _ :: _ :: .ite _ _ el :: _ => el
+  | _ => []
+
+theorem psTail_drop : psTail.drop 2 =
+    [.ite (.not (.v "needCopy")) [.callAssign [] "pj" "ParsedJson.write_tape" [] [(.bin .add (.v "idx") (.u64 1)), (.u8 34)]] copyBr,
+     .tapeAppend "pj" [(.v "size")], .ret [(.bool true)]] := rfl
+
+/-- `needCopy` false after validation: the message offset `idx + 1` and the length go to the tape -/
+theorem ps_nocopy (e : Env) (strs msg : Bytes) (idx sz : UInt64) (tape : Array UInt64) (f : Nat)
+    (hi : PJInit strs msg ⟨e, tape⟩) (hidx : e.get "idx" = some (.u64 idx)) (hnc : e.get "needCopy" = some (.bool false))
+    (hsz : e.get "size" = some (.u64 sz)) :
+    exec goFuns (f + 1) (psTail.drop 2) ⟨e, tape⟩ =
+      .ret ⟨(backEnv e ((tape.size + 1 : Nat) : Int) strs msg).set "pj.lim" (.int ((tape.size + 1 : Nat) + 1)),
+        (tape.push (mkWord 34 (idx + 1))).push sz⟩ [.bool true] := by
+  have hc := callFun_write_tape ⟨e, tape⟩ strs msg (.bin .add (.v "idx") (.u64 1)) (.u8 34) (idx + 1) 34 f hi
+    (by simp [hidx]) (by simp)
+  have hi' := PJInit_back e (tape.push (mkWord 34 (idx + 1))) strs msg
+  rw [psTail_drop]
+  simp only [exec, exec1, evalE, hnc, Bool.not_false, hc, assignTargets]
+  have hs' : ∀ n, (backEnv e n strs msg).get "size" = some (.u64 sz) := by
+    intro n; rw [backEnv_get _ _ _ _ _ (by decide) (by decide) (by decide)]; exact hsz
+  have hl' : ∀ n, (backEnv e n strs msg).get "pj.lim" = some (.int n) := by
+    intro n; simp [backEnv, Env.get_set]
+  have ha : tape ++ #[mkWord 34 (idx + 1), sz] = (tape.push (mkWord 34 (idx + 1))).push sz := by
+    apply Array.ext'; simp
+  simp [hs', hl', asWords, ha, -Env.set]
+
+def reallocIte : Stmt := copyBr.getD 2 .brk
+
+theorem copyBr_eq : copyBr =
+    [.assign "strs" (.v "Strings.B"),
+     .assign "requiredLen" (.bin .add (.bin .add (.conv .u64 (.lenB (.v "strs"))) (.v "size")) (.u64 32)),
+     reallocIte,
+     .assign "start" (.lenB (.v "strs")),
+     .extAssign ["_", "Strings.B"] "parseStringCopy" [(.v "buf"), (.v "Strings.B")],
+     .callAssign [] "pj" "ParsedJson.write_tape" [] [(.conv .u64 (.bin .add (.int 36028797018963968) (.v "start"))), (.u8 34)],
+     .assign "size" (.conv .u64 (.bin .sub (.lenB (.v "Strings.B")) (.v "start")))] := rfl
+
+/-- `copy(make([]byte, len(x)), x)` is `x` -/
+theorem copy_same (x : Bytes) :
+    x.extract 0 (min (Array.replicate x.size (0 : UInt8)).size x.size) ++
+      (Array.replicate x.size (0 : UInt8)).extract (min (Array.replicate x.size (0 : UInt8)).size x.size)
+        (Array.replicate x.size (0 : UInt8)).size = x := by
+  have := copy_pad x x.size (Nat.le_refl _)
+  rw [this]; simp
+
+/-- the reallocation of `pj.Strings.B` (taken or not, whatever `cap(strs)`) does not change its content -/
+theorem realloc_exec (e : Env) (strs : Bytes) (req sz : UInt64) (cap : Int) (tape : Array UInt64) (fuel : Nat)
+    (h1 : e.get "strs" = some (.bytes strs)) (h2 : e.get "Strings.B" = some (.bytes strs))
+    (h3 : e.get "requiredLen" = some (.u64 req)) (h4 : e.get "cap(strs)" = some (.int cap))
+    (h5 : e.get "size" = some (.u64 sz)) :
+    ∃ e2, exec1 goFuns fuel reallocIte ⟨e, tape⟩ = .normal ⟨e2, tape⟩ ∧
+      e2.get "strs" = some (.bytes strs) ∧ e2.get "Strings.B" = some (.bytes strs) ∧
+      (∀ k, k ≠ "strs" → k ≠ "Strings.B" → k ≠ "newSize" → e2.get k = e.get k) := by
+  have h0 : (0 : Int) ≤ strs.size := by omega
+  by_cases hc : req ≥ UInt64.ofInt cap
+  · by_cases hn : (UInt64.ofInt cap * UInt64.ofInt 2) < req
+    · refine ⟨((((e.set "newSize" (.u64 ((UInt64.ofInt cap * UInt64.ofInt 2)))).set "newSize" (.u64 (req + sz))).set "strs"
+        (.bytes (Array.replicate strs.size 0))).set "strs" (.bytes strs)).set "Strings.B" (.bytes strs), ?_, ?_, ?_, ?_⟩
+      · simp [reallocIte, copyBr, psTail, goparseString, h1, h2, h3, h4, h5, hc, hn, h0, Env.get_set, copy_same, -Env.set]
+      · simp [Env.get_set]
+      · simp [Env.get_set]
+      · intro k k1 k2 k3; simp [Env.get_set, Ne.symm k1, Ne.symm k2, Ne.symm k3]
+    · refine ⟨(((e.set "newSize" (.u64 ((UInt64.ofInt cap * UInt64.ofInt 2)))).set "strs"
+        (.bytes (Array.replicate strs.size 0))).set "strs" (.bytes strs)).set "Strings.B" (.bytes strs), ?_, ?_, ?_, ?_⟩
+      · simp [reallocIte, copyBr, psTail, goparseString, h1, h2, h3, h4, h5, hc, hn, h0, Env.get_set, copy_same, -Env.set]
+      · simp [Env.get_set]
+      · simp [Env.get_set]
+      · intro k k1 k2 k3; simp [Env.get_set, Ne.symm k1, Ne.symm k2, Ne.symm k3]
+  · refine ⟨e, ?_, h1, h2, fun _ _ _ _ => rfl⟩
+    simp [reallocIte, copyBr, psTail, goparseString, h1, h2, h3, h4, h5, hc, Env.get_set, -Env.set]
+
+def copyTail : List Stmt := copyBr.drop 3
+
+theorem stringbuf_word : UInt64.ofInt 36028797018963968 = wSTRINGBUFBIT := by decide
+
+theorem size_word (a b : Nat) : UInt64.ofInt ((a : Int) + (b : Int) - (a : Int)) = UInt64.ofNat b := by
+  rw [← ofInt_nat]; congr 1; omega
+
+/-- the end of the copy branch and of the function: `parseStringSimd` appends the decoded bytes to `pj.Strings.B`, the
+    offset into the string buffer (with `STRINGBUFBIT`) and the decoded length go to the tape -/
+theorem ps_copyB (e : Env) (strs msg pb dec : Bytes) (close : Nat) (tape : Array UInt64) (f : Nat)
+    (hl : e.get "pj.lim" = some (.int tape.size)) (hS : e.get "Strings.B" = some (.bytes strs))
+    (hM : e.get "Message" = some (.bytes msg)) (hs : e.get "strs" = some (.bytes strs))
+    (hb : e.get "buf" = some (.bytes pb)) (hD : decodeString pb 1 pb.size = some (dec, close)) :
+    exec goFuns (f + 1) (copyTail ++ [.tapeAppend "pj" [(.v "size")], .ret [(.bool true)]]) ⟨e, tape⟩ =
+      .ret ⟨((backEnv ((e.set "start" (.int strs.size)).set "Strings.B" (.bytes (strs ++ dec)))
+          ((tape.size + 1 : Nat) : Int) (strs ++ dec) msg).set "size" (.u64 (UInt64.ofNat dec.size))).set "pj.lim"
+          (.int ((tape.size + 1 : Nat) + 1)),
+        (tape.push (mkWord 34 (wSTRINGBUFBIT + UInt64.ofNat strs.size))).push (UInt64.ofNat dec.size)⟩ [.bool true] := by
+  have hi3 : PJInit (strs ++ dec) msg ⟨(e.set "start" (.int strs.size)).set "Strings.B" (.bytes (strs ++ dec)), tape⟩ := by
+    constructor <;> simp [Env.get_set, hl, hM]
+  have hc := callFun_write_tape ⟨(e.set "start" (.int strs.size)).set "Strings.B" (.bytes (strs ++ dec)), tape⟩ (strs ++ dec) msg
+    (.conv .u64 (.bin .add (.int 36028797018963968) (.v "start"))) (.u8 34) (wSTRINGBUFBIT + UInt64.ofNat strs.size) 34 f hi3
+    (by simp [Env.get_set, stringbuf_word, ofInt_nat, -Env.set]) (by simp)
+  simp only [copyTail, copyBr_eq, List.drop, List.cons_append, List.nil_append]
+  have ha : tape ++ #[mkWord 34 (wSTRINGBUFBIT + UInt64.ofNat strs.size), UInt64.ofNat dec.size] =
+      (tape.push (mkWord 34 (wSTRINGBUFBIT + UInt64.ofNat strs.size))).push (UInt64.ofNat dec.size) := by
+    apply Array.ext'; simp
+  simp [hs, hb, hS, Env.get_set, extCall, hD, assignTargets, hc, backEnv, ofInt_nat, asWords, ha, size_word, -Env.set]
 
 end SJ.GoStage2
